@@ -8,6 +8,7 @@ import Sgz.Model.Cache
 import Sgz.Model.Axes
 import Sgz.Model.Emul
 import Sgz.Model.Headers
+import Sgz.Model.Crop
 /-!
 Line-protocol driver over the executable model (`Sgz/Model`, Mathlib-free).  One request per line, one answer per
 line.  The Python harness sends the same request to the real implementation and diffs canonical answers.
@@ -313,6 +314,26 @@ def handleHwTable (line : String) : String :=
     | _, _ => "bad-op"
   | _ => "bad-op"
 
+def optRange (a b : String) : Option Crop.Range :=
+  if a == "N" || b == "N" then some none
+  else match a.toInt?, b.toInt? with
+    | some x, some y => some (some (x, y))
+    | _, _ => none
+
+/-- `crop <geo> I0 I1 X0 X1 Z0 Z1` (`N N` = axis not cropped): refusal, or the written box, the number of copied units and
+a digest of the source unit indices in output order -/
+def handleCrop (ws : List String) : String :=
+  match ints (ws.take 7), ws.drop 7 with
+  | some gs, [a, b, c, d, e, f] =>
+    match mkGeo gs, optRange a b, optRange c d, optRange e f with
+    | some g, some ri, some rx, some rz =>
+      if Crop.refuses g ri rx rz then "err index" else
+      let bx := Crop.box g ri rx rz
+      let us := Crop.units g bx
+      s!"ok {bx.i0} {bx.i1} {bx.x0} {bx.x1} {bx.z0} {bx.z1} | {us.length} {digestNat us}"
+    | _, _, _, _ => "bad-op"
+  | _, _ => "bad-op"
+
 def handle (line : String) : String :=
   if line.startsWith "hist " then handleHist (line.drop 5).toString else
   if line.startsWith "hwtable " then handleHwTable (line.drop 8).toString else
@@ -325,6 +346,7 @@ def handle (line : String) : String :=
   | "io" :: rest => handleIO rest
   | "axes" :: rest => handleAxes rest
   | "emul" :: rest => handleEmul rest
+  | "crop" :: rest => handleCrop rest
   | "hashfeed" :: rest => handleHashFeed rest
   | ["ping"] => "pong"
   | _ => "bad-op"
